@@ -188,6 +188,7 @@ type Script struct {
 	strOrder  []string
 	mathInts  bool
 	nativeStr bool // strings are SMT-LIB strings (requires mathematical integers)
+	ieeeFloats bool // float64 values are SMT-LIB (_ FloatingPoint 11 53) terms (`note floats ieee`)
 	axioms    []string // global quantified axioms (always included)
 	onAssume  func(text string)
 }
@@ -341,6 +342,13 @@ func (s *Script) header() string {
 		for _, w := range []int{8, 16, 32, 64} {
 			fmt.Fprintf(&b, "(define-sort Int_i%d () Int)\n(define-sort Int_u%d () Int)\n", w, w)
 		}
+	}
+	if s.ieeeFloats {
+		// the Flt datatype declared above is replaced: same sort name, IEEE 754 binary64 values
+		hdr := b.String()
+		hdr = strings.ReplaceAll(hdr, "(declare-datatypes ((Flt 0)) (((flt_zero) (mk_flt (flt_id Int)))))\n", "(define-sort Flt () (_ FloatingPoint 11 53))\n(define-fun flt_zero () Flt (_ +zero 11 53))\n")
+		b.Reset()
+		b.WriteString(hdr)
 	}
 	idx := s.idxSort()
 	fmt.Fprintf(&b, "(declare-datatypes ((Slice 0)) (((mk_slice (sl_ptr Ref) (sl_off %s) (sl_len %s) (sl_cap %s)))))\n", idx, idx, idx)
